@@ -297,24 +297,11 @@ def store_family():
   return mods
 
 
-def _after_unpack_str_item(parts):
-  """an item with a str key (constant or computed) that comes after a `**` operand in a dict display"""
-  seen = False
-  for p in parts:
-    if p.startswith("**"):
-      seen = True
-    elif seen and (p.startswith("'") or p.startswith("h()")):
-      return True
-  return False
-
-
 def display_family():
   """Container displays with unpacking: every arrangement of 0-2 unpacked operands (of different element types, built
   from call results so that nothing is constant-folded) and 0-2 plain items, for dict / list / tuple / set displays, and
-  the call spellings dict(d, k=v) / [*a] + [x].  Two arrangements are the known finding c01-display-item-after-unpack and
-  are left to W: a `'str': value` item after a `**` operand in a dict display, and a plain element before a `*`
-  operand in a list display (in both the container's type parameter gets a binding at a later CFG node than its
-  earlier bindings, which hides them from the final visibility query).)"""
+  the call spellings dict(d, k=v) / [*a] + [x], and update() on a non-empty dict.  (Found the defect repaired by 23d3aba: a
+  str-keyed item after a `**` operand and a `*` operand after a plain list element lost what the display already held.)"""
   L = ["def g(): return 3", "def h(): return 's'", "d1 = {1: g()}", "d2 = {'k': 1.5}", "l1 = [g()]", "l2 = [h(), None]",
        "t1 = (g(), h())", "s1 = {g()}"]
   k = 0
@@ -324,19 +311,19 @@ def display_family():
     for b in dict_items[:i] + dict_items[i + 1:]:
       for c in [None] + [x for x in dict_items if x not in (a, b)][:2]:
         parts = [a, b] + ([c] if c else [])
-        if _after_unpack_str_item(parts):
-          continue    # known finding c01-display-item-after-unpack (see docstring)
         k += 1
         L.append("dd%d = {%s}" % (k, ", ".join(parts)))
   for i, a in enumerate(seq_items):
     for b in seq_items[:i] + seq_items[i + 1:]:
       k += 1
-      if not (b.startswith("*") and not a.startswith("*")):   # [x, *ys]: known finding c01-display-item-after-unpack
-        L.append("dl%d = [%s, %s]" % (k, a, b))
+      L.append("dl%d = [%s, %s]" % (k, a, b))
       L.append("dt%d = (%s, %s)" % (k, a, b))
       L.append("ds%d = {%s, %s}" % (k, a.replace("*l2", "*t1"), b.replace("*l2", "*t1")))
   L += ["dc1 = dict(d1, a=g())", "dc2 = dict(d2, **{'z': h()})", "dc3 = [*l1] + [h()]", "dc4 = {**d1}", "dc5 = {**d1, **d2}",
-        "dc6 = [*l1, *l2][0]", "dc7 = {**d2}['k']", "dc8 = (*t1, *l2)[1]"]
+        "dc6 = [*l1, *l2][0]", "dc7 = {**d2}['k']", "dc8 = (*t1, *l2)[1]",
+        "du1 = {1: g()}", "du1.update({'a': g()})", "du2 = {1: g()}", "du2.update(a=h())", "du3 = {1: g()}", "du3.update(d2)",
+        "du4 = {'k': g()}", "du4.update({2.5: None}, z=h())", "du5 = {**d1}", "du5.update(d2)", "du5.update(d1)",
+        "du6 = [g()]", "du6.extend(l2)", "du7 = [g(), *l2]", "du7 += [1.5]"]
   return ["\n".join(L) + "\n"]
 
 
